@@ -207,4 +207,297 @@ theorem run_mapErr_ok {α : Type} (c : Comp α) (f : Err → Err) (m : Mode) (a 
 
 end Comp
 
+/-! ## what a computation can ask; the argument conversion layer asks `assert_value_not_undefined` only -/
+
+namespace Comp
+/-- every question the computation can ask satisfies `p` -/
+def AllAsks {α : Type} (p : HQ → Prop) : Comp α → Prop
+  | .pure _ => True
+  | .fail _ => True
+  | .ask q _ k => p q ∧ ∀ b, AllAsks p (k b)
+
+theorem allAsks_bind {α β : Type} (p : HQ → Prop) (c : Comp α) (f : α → Comp β)
+    (hc : c.AllAsks p) (hf : ∀ a, (f a).AllAsks p) : (c.bind f).AllAsks p := by
+  induction c with
+  | pure a => exact hf a
+  | fail e => trivial
+  | ask q g k ih => exact ⟨hc.1, fun b => ih b (hc.2 b)⟩
+
+theorem allAsks_ofExcept {α : Type} (p : HQ → Prop) (x : Except Err α) : (Comp.ofExcept x).AllAsks p := by
+  cases x <;> trivial
+
+theorem allAsks_chks (p : HQ → Prop) (qs : List HQ) (h : ∀ q ∈ qs, p q) : (Comp.chks qs).AllAsks p := by
+  induction qs with
+  | nil => trivial
+  | cons q r ih => exact ⟨h q (by simp), fun _ => ih (fun q' hq' => h q' (by simp [hq']))⟩
+
+/-- two modes that answer every question of the computation alike run it alike -/
+theorem run_congr {α : Type} (c : Comp α) (m m' : Mode) (h : c.AllAsks (fun q => q.run m = q.run m')) :
+    c.run m = c.run m' ∧ c.failsAtAsk m = c.failsAtAsk m' := by
+  induction c with
+  | pure a => exact ⟨rfl, rfl⟩
+  | fail e => exact ⟨rfl, rfl⟩
+  | ask q g k ih =>
+    simp only [Comp.run, Comp.failsAtAsk, ← h.1]
+    cases hq : q.run m with
+    | error e => exact ⟨rfl, rfl⟩
+    | ok b => exact ih b (h.2 b)
+
+/-- a mode under which no question of the computation fails does not fail at a question -/
+theorem not_failsAtAsk {α : Type} (c : Comp α) (m : Mode) (h : c.AllAsks (fun q => ∃ b, q.run m = .ok b)) :
+    c.failsAtAsk m = false := by
+  induction c with
+  | pure a => rfl
+  | fail e => rfl
+  | ask q g k ih =>
+    obtain ⟨⟨b, hb⟩, hk⟩ := h
+    simp only [Comp.failsAtAsk, hb]
+    exact ih b (hk b)
+
+theorem allAsks_mono {α : Type} (p p' : HQ → Prop) (hp : ∀ q, p q → p' q) (c : Comp α) : c.AllAsks p → c.AllAsks p' := by
+  induction c with
+  | pure a => exact fun _ => trivial
+  | fail e => exact fun _ => trivial
+  | ask q g k ih => exact fun h => ⟨hp q h.1, fun b => ih b (h.2 b)⟩
+end Comp
+
+def isAssertNotUndef : HQ → Prop
+  | .assertNotUndef _ => True
+  | _ => False
+
+theorem asksOwned_assert (t : ArgTy) (v : V) : ∀ q ∈ t.asksOwned v, isAssertNotUndef q := by
+  intro q hq
+  cases t <;> simp [ArgTy.asksOwned] at hq
+  obtain ⟨_, rfl⟩ := hq
+  trivial
+
+theorem asks_assert (t : ArgTy) : ∀ (v : V), ∀ q ∈ t.asks v, isAssertNotUndef q := by
+  induction t with
+  | base n =>
+    intro v q hq
+    simp only [ArgTy.asks] at hq
+    split at hq <;> simp at hq
+    subst hq; trivial
+  | opt t ih =>
+    intro v q hq
+    simp only [ArgTy.asks] at hq
+    split at hq
+    · split at hq <;> first | (simp at hq) | exact ih _ q hq
+    · simp at hq
+  | rest t ih =>
+    intro v q hq
+    simp only [ArgTy.asks] at hq
+    split at hq
+    · exact ih _ q hq
+    · simp at hq
+  | vec t ih =>
+    intro v q hq
+    simp only [ArgTy.asks] at hq
+    split at hq
+    · split at hq
+      · obtain ⟨x, _, hx⟩ := List.mem_flatMap.mp hq
+        exact asksOwned_assert t x q hx
+      · obtain ⟨x, _, hx⟩ := List.mem_flatMap.mp hq
+        exact asksOwned_assert t x q hx
+      · simp at hq
+    · simp at hq
+
+theorem convRest_assert (ops : Ops) (name : String) (t : ArgTy) (args : List V) :
+    (convRest ops name t args).AllAsks isAssertNotUndef := by
+  induction args with
+  | nil => trivial
+  | cons v r ih =>
+    simp only [convRest]
+    exact Comp.allAsks_bind _ _ _ (Comp.allAsks_chks _ _ (asks_assert _ v))
+      (fun _ => Comp.allAsks_bind _ _ _ (Comp.allAsks_ofExcept _ _) (fun _ => ih))
+
+theorem convArgs_assert (ops : Ops) (sig : List (String × ArgTy)) (args : List V) :
+    (convArgs ops sig args).AllAsks isAssertNotUndef := by
+  fun_induction convArgs ops sig args with
+  | case1 => trivial
+  | case2 => trivial
+  | case3 name t rest args => exact convRest_assert ops name t args
+  | case4 _ _ ts ih => exact ih
+  | case5 => trivial
+  | case6 name t ts v r _ ih =>
+    exact Comp.allAsks_bind _ _ _ (Comp.allAsks_chks _ _ (asks_assert _ v))
+      (fun _ => Comp.allAsks_bind _ _ _ (Comp.allAsks_ofExcept _ _) (fun _ => ih))
+
+theorem convCall_assert (ops : Ops) (sig : List ArgTy) (args : List V) :
+    (convCall ops sig args).AllAsks isAssertNotUndef := by
+  unfold convCall
+  exact convArgs_assert ops _ _
+
+
+/-! ## `join_safe` asks `Environment::format` only, `UnpackLists` asks `try_iter` only -/
+
+theorem Comp.allAsks_pure {α : Type} (p : HQ → Prop) (a : α) : (Comp.pure a).AllAsks p := True.intro
+theorem Comp.allAsks_fail {α : Type} (p : HQ → Prop) (e : Err) : (Comp.fail e : Comp α).AllAsks p := True.intro
+
+def isEnvFormat : HQ → Prop
+  | .envFormat _ => True
+  | _ => False
+
+theorem joinSafeC_asks (f : Nat) (sep : String) (xs : List V) : ∀ first, (joinSafeC f sep xs first).AllAsks isEnvFormat := by
+  induction xs with
+  | nil => intro _; exact Comp.allAsks_pure _ _
+  | cons x r ih =>
+    intro first
+    unfold joinSafeC
+    simp only
+    split
+    · exact Comp.allAsks_bind _ _ _ (ih false) (fun _ => Comp.allAsks_pure _ _)
+    · exact ⟨True.intro, fun _ => Comp.allAsks_bind _ _ _ (ih false) (fun _ => Comp.allAsks_pure _ _)⟩
+
+theorem joinAeC_asks (f : Nat) (v : V) (j : Option V) : (joinAeC f v j).AllAsks isEnvFormat := by
+  unfold joinAeC
+  split
+  · exact Comp.allAsks_fail _ _
+  · unfold joinAeItems
+    split
+    · exact Comp.allAsks_bind _ _ _ (joinSafeC_asks _ _ _ _) (fun _ => Comp.allAsks_pure _ _)
+    · split
+      · exact Comp.allAsks_bind _ _ _ (joinSafeC_asks _ _ _ _) (fun _ => Comp.allAsks_pure _ _)
+      · exact Comp.allAsks_pure _ _
+
+theorem unpackListsC_asks (vs : List V) : (unpackListsC vs).AllAsks (fun q => ∃ k, q = .tryIter k) := by
+  induction vs with
+  | nil => exact Comp.allAsks_pure _ _
+  | cons v r ih =>
+    unfold unpackListsC
+    split
+    · exact Comp.allAsks_fail _ _
+    · refine ⟨⟨_, rfl⟩, fun _ => ?_⟩
+      split
+      · exact Comp.allAsks_fail _ _
+      · exact Comp.allAsks_bind _ _ _ ih (fun _ => Comp.allAsks_pure _ _)
+
+/-! ## which parameter types can consult the mode -/
+
+theorem asksOwned_nil (t : ArgTy) (h : t.consultsOwned = false) (v : V) : t.asksOwned v = [] := by
+  cases t <;> simp_all [ArgTy.asksOwned, ArgTy.consultsOwned]
+
+/-- a parameter type that cannot consult the mode asks nothing, whatever the value -/
+theorem asks_nil_of_not_consults (t : ArgTy) : t.consults = false → ∀ v, t.asks v = [] := by
+  induction t with
+  | base n => intro h v; simp_all [ArgTy.consults, ArgTy.asks]
+  | opt t ih =>
+    intro h v
+    simp only [ArgTy.consults, Bool.and_eq_false_iff] at h
+    simp only [ArgTy.asks]
+    rcases h with h | h
+    · simp [h]
+    · split
+      · split <;> first | rfl | exact ih h _
+      · rfl
+  | rest t ih =>
+    intro h v
+    simp only [ArgTy.consults, Bool.and_eq_false_iff] at h
+    simp only [ArgTy.asks]
+    rcases h with h | h
+    · simp [h]
+    · split
+      · exact ih h _
+      · rfl
+  | vec t ih =>
+    intro h v
+    simp only [ArgTy.consults, Bool.and_eq_false_iff] at h
+    simp only [ArgTy.asks]
+    rcases h with h | h
+    · simp [h]
+    · split
+      · split <;> simp [asksOwned_nil t h]
+      · rfl
+
+/-- a parameter type that can consult the mode does so for some (defined, non-none) value: it asks
+    `assert_value_not_undefined` about the value, resp. about the items of a list -/
+theorem consults_witness (t : ArgTy) : t.consults = true → ∃ v : V, v.kind = .defined ∧ v ≠ .none ∧ t.asks v ≠ [] := by
+  induction t with
+  | base n => intro h; exact ⟨.int 0, rfl, by simp, by simp_all [ArgTy.consults, ArgTy.asks]⟩
+  | opt t ih =>
+    intro h
+    simp only [ArgTy.consults, Bool.and_eq_true] at h
+    obtain ⟨v, hk, hn, hv⟩ := ih h.2
+    refine ⟨v, hk, hn, ?_⟩
+    cases v <;> simp_all [ArgTy.asks, V.kind]
+  | rest t ih =>
+    intro h
+    simp only [ArgTy.consults, Bool.and_eq_true] at h
+    obtain ⟨v, hk, hn, hv⟩ := ih h.2
+    exact ⟨v, hk, hn, by simpa [ArgTy.asks, h.1] using hv⟩
+  | vec t ih =>
+    intro h
+    simp only [ArgTy.consults, Bool.and_eq_true] at h
+    refine ⟨.seq [.undef], rfl, by simp, ?_⟩
+    cases t <;> simp_all [ArgTy.asks, ArgTy.asksOwned, ArgTy.consultsOwned]
+
+/-! a write changes nothing but the output buffers (whatever they are: live, capturing, discarding) -/
+@[simp] theorem St.write_code (s : St) (c : String) : (s.write c).code = s.code := by
+  unfold St.write; cases s.outs with
+  | nil => rfl
+  | cons o r => cases o <;> rfl
+@[simp] theorem St.write_pc (s : St) (c : String) : (s.write c).pc = s.pc := by
+  unfold St.write; cases s.outs with
+  | nil => rfl
+  | cons o r => cases o <;> rfl
+@[simp] theorem St.write_stack (s : St) (c : String) : (s.write c).stack = s.stack := by
+  unfold St.write; cases s.outs with
+  | nil => rfl
+  | cons o r => cases o <;> rfl
+@[simp] theorem St.write_frames (s : St) (c : String) : (s.write c).frames = s.frames := by
+  unfold St.write; cases s.outs with
+  | nil => rfl
+  | cons o r => cases o <;> rfl
+@[simp] theorem St.write_ctx (s : St) (c : String) : (s.write c).ctx = s.ctx := by
+  unfold St.write; cases s.outs with
+  | nil => rfl
+  | cons o r => cases o <;> rfl
+@[simp] theorem St.write_closures (s : St) (c : String) : (s.write c).closures = s.closures := by
+  unfold St.write; cases s.outs with
+  | nil => rfl
+  | cons o r => cases o <;> rfl
+@[simp] theorem St.write_calls (s : St) (c : String) : (s.write c).calls = s.calls := by
+  unfold St.write; cases s.outs with
+  | nil => rfl
+  | cons o r => cases o <;> rfl
+@[simp] theorem St.write_formatter (s : St) (c : String) : (s.write c).formatter = s.formatter := by
+  unfold St.write; cases s.outs with
+  | nil => rfl
+  | cons o r => cases o <;> rfl
+@[simp] theorem St.write_fmtCalls (s : St) (c : String) : (s.write c).fmtCalls = s.fmtCalls := by
+  unfold St.write; cases s.outs with
+  | nil => rfl
+  | cons o r => cases o <;> rfl
+@[simp] theorem St.write_blockStacks (s : St) (c : String) : (s.write c).blockStacks = s.blockStacks := by
+  unfold St.write; cases s.outs with
+  | nil => rfl
+  | cons o r => cases o <;> rfl
+@[simp] theorem St.write_curBlock (s : St) (c : String) : (s.write c).curBlock = s.curBlock := by
+  unfold St.write; cases s.outs with
+  | nil => rfl
+  | cons o r => cases o <;> rfl
+@[simp] theorem St.write_parent (s : St) (c : String) : (s.write c).parent = s.parent := by
+  unfold St.write; cases s.outs with
+  | nil => rfl
+  | cons o r => cases o <;> rfl
+
+@[simp] theorem St.write_autoEscape (s : St) (c : String) : (s.write c).autoEscape = s.autoEscape := by
+  unfold St.write; cases s.outs with
+  | nil => rfl
+  | cons o r => cases o <;> rfl
+@[simp] theorem St.write_aeStack (s : St) (c : String) : (s.write c).aeStack = s.aeStack := by
+  unfold St.write; cases s.outs with
+  | nil => rfl
+  | cons o r => cases o <;> rfl
+
+/-- item access on an undefined base finds nothing, whatever the key -/
+theorem V.getItem_undef (k : V) : V.getItem .undef k = .ok Option.none := by
+  unfold V.getItem
+  generalize k.plain = kp
+  cases kp <;> simp [V.plain]
+theorem V.getItem_silent (k : V) : V.getItem .silent k = .ok Option.none := by
+  unfold V.getItem
+  generalize k.plain = kp
+  cases kp <;> simp [V.plain]
+
 end MJ.Undef
